@@ -17,6 +17,7 @@ import (
 	"path/filepath"
 	"regexp"
 	"sort"
+	"strconv"
 	"strings"
 	"sync"
 
@@ -59,13 +60,14 @@ func validateAny(path string, strict bool) error {
 }
 
 var (
-	reValidate = regexp.MustCompile(`^validate \S+: `)
-	reWrapper  = regexp.MustCompile(`(optimize context|optimize resources|resource dict|document catalog|catalog Pages|page tree|kid obj#[0-9]+|page [0-9]+( content decode)?|validation error \(obj#:[0-9]+\)( \(try --mode=relaxed\))?): `)
-	reSubdict  = regexp.MustCompile(`missing required resource subdict: \w+:?`) // which subdict is named first depends on map order
-	rePath     = regexp.MustCompile(`\S*/\S+`)
-	reDigits   = regexp.MustCompile(`[0-9]+`)
-	reHex      = regexp.MustCompile(`\b[0-9a-fA-F]{8,}\b`)
-	reKeep     = regexp.MustCompile(`[^A-Za-z0-9_.=:#<>()\[\]-]+`)
+	reValidate    = regexp.MustCompile(`^validate \S+: `)
+	reWrapper     = regexp.MustCompile(`(optimize context|optimize resources|resource dict|document catalog|catalog Pages|page tree|kid obj#[0-9]+|page [0-9]+( content decode)?|validation error \(obj#:[0-9]+\)( \(try --mode=relaxed\))?): `)
+	reSubdict     = regexp.MustCompile(`missing required resource subdict: \w+:?`) // which subdict is named first depends on map order
+	reFailingPage = regexp.MustCompile(`page ([0-9]+): missing required resource subdict`)
+	rePath        = regexp.MustCompile(`\S*/\S+`)
+	reDigits      = regexp.MustCompile(`[0-9]+`)
+	reHex         = regexp.MustCompile(`\b[0-9a-fA-F]{8,}\b`)
+	reKeep        = regexp.MustCompile(`[^A-Za-z0-9_.=:#<>()\[\]-]+`)
 )
 
 // normErr turns a validation error into the stable tail of a key: the wrappers that only say where the
@@ -159,10 +161,10 @@ func predictorStreamRewritten(inputs [][]byte, outPath string) bool {
 	return false
 }
 
-// sharedStreamRewritten reports whether the PDF at outPath has a content stream object that two or more
-// pages share and whose data is not one of the streams of the inputs: pdfcpu patched a shared content
+// sharedStreamRewritten reports whether the page the validator complains about (failingPage, 1-based) uses a
+// content stream object that two or more pages share and whose data is not one of the streams of the inputs: pdfcpu patched a shared content
 // stream in place (stamps, CreateFile on existing pages), which also changes pages that were not selected.
-func sharedStreamRewritten(inputs [][]byte, outPath string) bool {
+func sharedStreamRewritten(inputs [][]byte, outPath string, failingPage int) bool {
 	known := map[[32]byte]bool{}
 	for _, b := range inputs {
 		d, _, _ := strictsec.Open(b, opwl.Passwords, pdfstrict.Options{})
@@ -188,7 +190,8 @@ func sharedStreamRewritten(inputs [][]byte, outPath string) bool {
 	}
 	pages, _ := d.Pages()
 	users := map[int]int{}
-	for _, p := range pages {
+	onFailing := map[int]bool{} // content stream objects of the page the validator complains about
+	for pi, p := range pages {
 		var refs []pdfstrict.Object
 		switch c := p.Dict["Contents"].(type) {
 		case pdfstrict.Ref:
@@ -205,11 +208,14 @@ func sharedStreamRewritten(inputs [][]byte, outPath string) bool {
 			if ref, ok := r.(pdfstrict.Ref); ok && !seen[ref.Num] {
 				seen[ref.Num] = true
 				users[ref.Num]++
+				if pi+1 == failingPage {
+					onFailing[ref.Num] = true
+				}
 			}
 		}
 	}
 	for num, n := range users {
-		if n < 2 {
+		if n < 2 || !onFailing[num] {
 			continue
 		}
 		if st, ok := d.Resolve(pdfstrict.Ref{Num: num}).(*pdfstrict.Stream); ok && st.Plain != nil && !known[sha256.Sum256(st.Plain)] {
@@ -235,7 +241,9 @@ type caseOut struct {
 	outs      []outVerdict
 	others    int
 	unchecked int
-	inStrict  bool // every PDF input of the case passes strict validation
+	inStrict  bool   // every PDF input of the case passes strict validation
+	derived   string // "enc" | "wm" | "boxes": the invalid input was derived from a valid pool document by pdfcpu itself
+	derivedE  error
 }
 
 const maxOutputsPerCase = 24
@@ -256,9 +264,9 @@ func main() {
 		t.Rule("case = (opcat operation writing PDFs, input = fixture | corpus PDF <= 1 MB | pdfgen document — all accepted by api.ValidateFile relaxed —, seeded valid parameters, new output | in place); for a call that succeeds every PDF output must pass api.ValidateFile in relaxed mode; non-trivial = distinct (operation, input) pairs with at least one validated output")
 		t.Assume("strict-mode validation of the outputs is only counted, never a verdict (the property names relaxed mode): strict_invalid = outputs failing strict mode, strict_regression/<op> = those whose inputs all pass strict mode")
 		t.Assume("outputs that fail because pdfcpu re-encoded a page content stream that declares a /Predictor (Flate encoder ignores predictors: known finding of C15) are reported under the single key class=output-invalid/cause=predictor-content-stream-rewritten; the cause is established on the output bytes with pdfstrict, not from the error text")
-		t.Assume("outputs failing with \"missing required resource subdict\" that hold a content stream object shared by two or more pages whose data pdfcpu rewrote (stamp / CreateFile on a proper subset of the pages sharing it) are reported under the single key class=output-invalid/cause=shared-content-stream-rewritten")
+		t.Assume("outputs failing with \"page N: missing required resource subdict\" where page N uses a content stream object shared with other pages whose data pdfcpu rewrote (stamp / CreateFile on a proper subset of the pages sharing it) are reported under the single key class=output-invalid/cause=shared-content-stream-rewritten")
 		t.Assume("operations that copy bytes (PatchFile, pdfcpu.Write*, pdfcpu.CopyFile) or have no PDF output are out of scope; at most 24 outputs per call are validated (first 12 and last 12 by name)")
-		t.Assume("derived inputs (fixture shapes enc/wm/boxes made from a pool document with pdfcpu) are validated before use; a derived input that does not validate voids the case (counted as input_invalid_derived)")
+		t.Assume("derived inputs (fixture shapes enc/wm/boxes made from a pool document with pdfcpu) are validated before use; a derived input that does not validate is charged to the deriving operation (EncryptFile, AddWatermarksFile/text, AddBoxesFile) as an invalid output, except for the predictor signature, which is only counted (derived_input_invalid_predictor_signature); the case itself is void")
 
 		ops := opwl.PDFOps()
 		pool := opwl.BuildPool(t, opwl.PoolOptions{Corpus: t.Pick(160, 2000), Gen: t.Pick(60, 500), Strict: true})
@@ -307,6 +315,7 @@ func main() {
 				case pl.Derive[fx] != "":
 					if err := validateAny(path, false); err != nil {
 						co.inputBad = fmt.Sprintf("%s derived from %s: %v", pl.Derive[fx], pool.Inputs[pl.Subs[fx]].Name, err)
+						co.derived, co.derivedE = pl.Derive[fx], err
 						return errors.New("derived input invalid")
 					}
 				case substituted: // validated when the pool was built
@@ -359,8 +368,9 @@ func main() {
 					v.strict = validateAny(f, true)
 					if v.relaxed != nil {
 						v.c15 = predictorStreamRewritten(inputBytes, f)
-						if !v.c15 && strings.Contains(v.relaxed.Error(), "missing required resource subdict") {
-							v.shared = sharedStreamRewritten(inputBytes, f)
+						if m := reFailingPage.FindStringSubmatch(v.relaxed.Error()); !v.c15 && m != nil {
+							n, _ := strconv.Atoi(m[1])
+							v.shared = sharedStreamRewritten(inputBytes, f, n)
 						}
 					}
 					co.outs = append(co.outs, v)
@@ -392,6 +402,21 @@ func main() {
 			switch {
 			case co.inputBad != "":
 				t.Count("input_invalid_derived_or_fixture", 1)
+				if os.Getenv("VERIF_C21_DEBUG") != "" {
+					fmt.Fprintf(os.Stderr, "input invalid: case %d %s: %s\n", i, name, co.inputBad)
+				}
+				if co.derived != "" {
+					// the derivation is itself an operation on a valid input whose output must validate
+					dop := map[string]string{"enc": "EncryptFile", "wm": "AddWatermarksFile/text", "boxes": "AddBoxesFile"}[co.derived]
+					if strings.Contains(co.derivedE.Error(), "content decode: stream filter") {
+						// signature of a re-encoded predictor stream; the directly driven operations report it with proof
+						t.Count("derived_input_invalid_predictor_signature", 1)
+					} else {
+						key := "op=" + dop + "/class=output-invalid/" + normErr(co.derivedE)
+						t.Violate(key, fmt.Sprintf("%s (run to derive the input of case %d, %s) succeeded on a valid pool document but its output does not validate (relaxed): %s", dop, i, name, co.inputBad),
+							replayCase{Index: i, Op: name, Input: pl.InputName(pool), InPlace: pl.InPlace, Random: pl.Random, File: "(derived input)", Error: co.inputBad})
+					}
+				}
 				if firstErr[name] == "" {
 					firstErr[name] = "input: " + co.inputBad
 				}
